@@ -155,9 +155,10 @@ def run_lines(binary, lines, timeout=1800, shards=None):
     if not lines:
         return []
     # cases that may kill the process (allocation-failure sweeps) run one per process
-    iso = [i for i, l in enumerate(lines) if l.startswith("alloclim ")]
+    ISO = lambda l: l.startswith("alloclim ") or len(l) > 120000        # very long inputs may overflow the stack
+    iso = [i for i, l in enumerate(lines) if ISO(l)]
     if iso and len(iso) < len(lines):
-        rest_idx = [i for i in range(len(lines)) if not lines[i].startswith("alloclim ")]
+        rest_idx = [i for i in range(len(lines)) if not ISO(lines[i])]
         rest = run_lines(binary, [lines[i] for i in rest_idx], timeout, shards)
         out = [None] * len(lines)
         for i, o in zip(rest_idx, rest):
@@ -168,7 +169,7 @@ def run_lines(binary, lines, timeout=1800, shards=None):
     if iso:
         outs = []
         for l in lines:
-            p = subprocess.run(["bash", "-c", "ulimit -s unlimited 2>/dev/null; exec " + binary], input=l + "\n",
+            p = subprocess.run(["bash", "-c", ("ulimit -s unlimited 2>/dev/null; " if "driver" in binary else "") + "exec " + binary], input=l + "\n",
                                stdout=subprocess.PIPE, stderr=subprocess.DEVNULL, text=True, env=ENV, timeout=timeout)
             o = p.stdout.split("\n")[0] if p.stdout else ""
             outs.append(o if p.returncode == 0 and o else "ABORT(rc=%d)%s" % (p.returncode, o[:200]))
@@ -177,7 +178,7 @@ def run_lines(binary, lines, timeout=1800, shards=None):
     chunks = [lines[i::shards] for i in range(shards)]
     procs = []
     for ch in chunks:
-        p = subprocess.Popen(["bash", "-c", "ulimit -s unlimited 2>/dev/null; exec " + binary], stdin=subprocess.PIPE,
+        p = subprocess.Popen(["bash", "-c", ("ulimit -s unlimited 2>/dev/null; " if "driver" in binary else "") + "exec " + binary], stdin=subprocess.PIPE,
                              stdout=subprocess.PIPE, stderr=subprocess.DEVNULL, text=True, env=ENV)
         procs.append(p)
     outs = []
